@@ -45,6 +45,7 @@ func main() {
 	writeBaseFlag := flag.Bool("write-baseline", false, "rewrite the baseline of this property from this run")
 	seed := flag.Int("seed", 0, "seed")
 	cpuprof := flag.String("cpuprofile", "", "write a CPU profile here")
+	with := flag.String("with", "", "comma-separated properties whose contracts this property depends on: their obligations are generated and reported under -prop")
 	flag.Parse()
 	if *cpuprof != "" {
 		pf, _ := os.Create(*cpuprof)
@@ -186,6 +187,12 @@ func main() {
 	}
 	loadS := time.Since(t0).Seconds()
 
+	props := []string{*prop}
+	for _, w := range strings.Split(*with, ",") {
+		if w = strings.TrimSpace(w); w != "" && *prop != "" {
+			props = append(props, w)
+		}
+	}
 	timeout := 25
 	if *tier == "thorough" {
 		timeout = 90
@@ -196,8 +203,8 @@ func main() {
 	keys := append([]string(nil), v.cs.Order...)
 	for _, k := range keys {
 		con := v.cs.Funcs[k]
-		taggedOnly := *prop != "" && !hasProp(con.Props, *prop) && hasProp(con.TaggedOnly, *prop)
-		if *prop != "" && !hasProp(con.Props, *prop) && !taggedOnly {
+		taggedOnly := *prop != "" && !hasAnyProp(con.Props, props) && hasAnyProp(con.TaggedOnly, props)
+		if *prop != "" && !hasAnyProp(con.Props, props) && !taggedOnly {
 			continue
 		}
 		if con.Trusted || con.Template != "" {
@@ -212,14 +219,15 @@ func main() {
 			continue
 		}
 		v.curProp = *prop
+		v.curProps = props
 		r := v.verifyFunc(cu, con)
 		results = append(results, r)
 		for _, o := range r.Obls {
 			// property filter per clause
-			if *prop != "" && len(o.Props) > 0 && !hasProp(o.Props, *prop) {
+			if *prop != "" && len(o.Props) > 0 && !hasAnyProp(o.Props, props) {
 				continue
 			}
-			if taggedOnly && !hasProp(o.Props, *prop) {
+			if taggedOnly && !hasAnyProp(o.Props, props) && !strings.HasPrefix(o.Kind, "vacuity") && !strings.Contains(o.Name, "/vacuity:") {
 				continue
 			}
 			ctxOf[o] = r.Ctx
@@ -231,7 +239,7 @@ func main() {
 		if lm.Template != "" {
 			continue
 		}
-		if *prop != "" && !hasProp(lm.Props, *prop) {
+		if *prop != "" && !hasAnyProp(lm.Props, props) {
 			continue
 		}
 		if *only != "" && !strings.Contains(lm.Name, *only) {
@@ -309,4 +317,13 @@ func sortedObls(obls []*Obligation) []*Obligation {
 	o2 := append([]*Obligation(nil), obls...)
 	sort.SliceStable(o2, func(i, j int) bool { return o2[i].Name < o2[j].Name })
 	return o2
+}
+
+func hasAnyProp(have []string, want []string) bool {
+	for _, w := range want {
+		if hasProp(have, w) {
+			return true
+		}
+	}
+	return false
 }
